@@ -263,7 +263,9 @@ func runC12(c *eng.Ctx) {
 	// ---- R12.5 shared with C06
 	c.Rule("R06.2", "K8")
 	if fn := c.Fn("server.(*metadataAPI).removeStream"); fn != nil {
-		eng.Instrs(fn, func(in ssa.Instruction) {
+		// removeStream and the helpers it calls in place (the notification may live in a helper shared with the replay path)
+		reach := moduleReach(c, fn, 2)
+		instrsOfAllFn(reach, func(host *ssa.Function, in ssa.Instruction) {
 			call, ok := in.(*ssa.Call)
 			if !ok || !strings.HasPrefix(eng.CalleeRef(&call.Call), "server.Server.startGoroutine") {
 				return
@@ -278,16 +280,23 @@ func runC12(c *eng.Ctx) {
 				return
 			}
 			w := writesReplicated(c, target, map[*ssa.Function]bool{})
-			c.Check(w == "", "goroutine started in server.(*metadataAPI).removeStream", c.Pos(in), "the asynchronous function writes no replicated field", "a goroutine started on the Raft apply path mutates replicated state ("+w+"): its effect is ordered arbitrarily against later applies, so servers can diverge")
+			c.Check(w == "", "goroutine started in "+ir.FuncKey(ir.Outermost(host)), c.Pos(in), "the asynchronous function writes no replicated field", "a goroutine started on the Raft apply path mutates replicated state ("+w+"): its effect is ordered arbitrarily against later applies, so servers can diverge")
 		})
 		sd := false
-		eng.InstrsDeep(fn, func(_ *ssa.Function, in ssa.Instruction) {
-			if ci, ok := in.(ssa.CallInstruction); ok && eng.CalleeRef(ci.Common()) == "server.consumerGroup.StreamDeleted" {
-				sd = true
+		var closures []*ssa.Function
+		for _, f := range reach {
+			if f.Parent() != nil {
+				continue
 			}
-		})
+			eng.InstrsDeep(f, func(_ *ssa.Function, in ssa.Instruction) {
+				if ci, ok := in.(ssa.CallInstruction); ok && eng.CalleeRef(ci.Common()) == "server.consumerGroup.StreamDeleted" {
+					sd = true
+				}
+			})
+			closures = append(closures, closuresOf(f)...)
+		}
 		// … every group, on every server: group state is replicated, not a coordinator-local cache
-		for _, mc := range closuresOf(fn) {
+		for _, mc := range closures {
 			for _, sdc := range eng.CallsIn(mc, "server.consumerGroup.StreamDeleted") {
 				hdr := sdc.(ssa.Instruction).Block()
 				for hdr != nil && !isLoopHeader(hdr) {
@@ -317,6 +326,12 @@ func runC12(c *eng.Ctx) {
 	c.Check(nSent >= 4, "group sentinels resolved", "", "identity comparisons with the consumer-group sentinels resolved to their producers", "fewer identity comparisons with group sentinels than on the reference tree")
 	// ---- R15.8 (shared) the configuration keys this property's switches hang on reach their fields
 	ruleConfigWiring(c, "R15.8")
+
+	c.Rule("R06.6", "K2")
+	ruleReplayedDeleteNotifiesGroups(c)
+
+	c.Rule("R06.4", "K6")
+	ruleSnapshotCarriesAssignments(c)
 
 }
 
@@ -713,4 +728,14 @@ func closuresOf(fn *ssa.Function) []*ssa.Function {
 		out = append(out, closuresOf(a)...)
 	}
 	return out
+}
+
+func instrsOfAllFn(fns []*ssa.Function, f func(host *ssa.Function, in ssa.Instruction)) {
+	for _, fn := range fns {
+		if fn.Parent() != nil {
+			continue // closures are reached through their parents by the rules that need them
+		}
+		host := fn
+		eng.Instrs(fn, func(in ssa.Instruction) { f(host, in) })
+	}
 }
